@@ -475,7 +475,7 @@ def install_observers(run, patch):
                       (i, float(gy[i]), [float(Y[r, 0]) for r in rows]))
                 break
             if he and gs2 is not None and len(gs2) == gp.X.shape[0]:
-                if not any(gs2[i] == fl.S[r, 0] ** 2 for r in rows):
+                if not any(np.isclose(gs2[i], fl.S[r, 0] ** 2, rtol=1e-12, atol=0.0) for r in rows):
                     run.v("C15", "supplied noise does not enter as logged SD squared", "s2-not-squared/%s" % tag,
                           (i, float(gs2[i]), [float(fl.S[r, 0]) for r in rows]))
                     break
@@ -516,10 +516,13 @@ def install_observers(run, patch):
     def add(fl, gp, x_new, y_new, sd_new=None, options=None):
         k0 = gp.X.shape[0]
         g = o_add(fl, gp, x_new, y_new, sd_new, options)
-        if g.X.shape[0] != k0 + 1:
-            run.v("C15", "posterior update did not append exactly one pair", "add-size", (k0, g.X.shape[0]))
-        elif not np.array_equal(g.X[-1], np.ravel(x_new)):
-            run.v("C15", "posterior update appended a different point", "add-x", "")
+        if g.X.shape[0] == k0 + 1:
+            if not np.array_equal(g.X[-1], np.ravel(x_new)):
+                run.v("C15", "posterior update appended a different point", "add-x", "")
+        elif g.X.shape[0] == k0 and fl.he_noise_flag and np.any((g.X == np.ravel(x_new)).all(1)):
+            run.stats["gp_add_merged"] += 1  # repeated observation merged into the point's own pair
+        else:
+            run.v("C15", "posterior update neither appended the new evaluation nor refreshed its pair", "add-size", (k0, g.X.shape[0]))
         check_gp("add", g, fl)
         return g
 
